@@ -390,7 +390,9 @@ def main():
     for v in violations:
         body = json.dumps(v, indent=1, sort_keys=True)
         h = hashlib.sha1(json.dumps(v.get("replay"), sort_keys=True).encode()).hexdigest()[:12]
-        path = os.path.join(VERIF, "replays", "%s-%s.json" % (v.get("property", prop), h))
+        rdir = os.path.join(VERIF, "replays") if REPO == "/repo" else os.path.join(WORK, "replays-other-tree")
+        os.makedirs(rdir, exist_ok=True)
+        path = os.path.join(rdir, "%s-%s.json" % (v.get("property", prop), h))
         open(path, "w").write(body)
         lines.append("VIOLATION property=%s replay=%s" % (v.get("property", prop), path))
         log("  [%s] %s" % (v.get("signature"), (v.get("message") or "")[:600]))
@@ -432,7 +434,7 @@ def main():
         "known_findings_reproduced": [k["key"] for k in knownlines],
         "technique": cfg.get("technique", ""),
     }
-    if not replay:
+    if not replay and REPO == "/repo":  # a run against another tree (VERIF_REPO, sensitivity work) leaves the evidence alone
         json.dump(ev, open(os.path.join(VERIF, "evidence", "%s.json" % prop), "w"), indent=1)
     log("%s %s: evaluations=%d distinct_nontrivial=%d violations=%d wall=%.1fs" % (prop, tier, evals, len(hashes), len(violations), wall))
     if violations:
